@@ -65,7 +65,7 @@ var interpPkgs = map[string]bool{
 	"internal/bytealg": true, "internal/abi": true, "sync/atomic": true, "sync": true, "unsafe": true,
 	"github.com/go-jose/go-jose/v4/jwt": true,
 	"github.com/m7913d/go-ntlm/ntlm":    true,
-	"net/textproto": true, "github.com/google/uuid": true, "github.com/go-jose/go-jose/v4": true, "math/big": true, "internal/godebug": false,
+	"net/textproto":                     true, "github.com/google/uuid": true, "github.com/go-jose/go-jose/v4": true, "math/big": true, "internal/godebug": false,
 }
 
 var initPkgs = map[string]bool{
@@ -300,39 +300,44 @@ func (e *Engine) lookupHarnessFunc(name string) *ssa.Function {
 
 // modelFuncs maps library functions to Go-source models in the harness prelude.
 var modelFuncs = map[string]string{
-	"encoding/binary.Read":  "vpmBinaryRead",
-	"encoding/binary.Write": "vpmBinaryWrite",
-	"fmt.Sprintf":           "vpmSprintf",
-	"fmt.Errorf":            "vpmErrorf",
-	"fmt.Fprintf":           "vpmFprintf",
-	"fmt.Fprint":            "vpmFprint",
-	"fmt.Sprint":            "vpmSprint",
-	"context.WithValue":     "vpmWithValue",
-	"errors.Is":             "vpmErrorsIs",
-	"net/http.Error":             "vpmHttpError",
-	"net/http.Redirect":          "vpmRedirect",
-	"(net/http.Header).Get":      "vpmHeaderGet",
-	"(net/http.Header).Add":      "vpmHeaderAdd",
-	"(net/http.Header).Set":      "vpmHeaderSet",
-	"(net/http.Header).Del":      "vpmHeaderDel",
-	"(net/http.Header).Values":   "vpmHeaderValues",
-	"context.WithTimeout":        "vpmWithTimeout",
-	"context.WithCancel":         "vpmWithCancel",
-	"(*sync.Map).Load":           "vpmSyncMapLoad",
-	"(*sync.Map).Store":          "vpmSyncMapStore",
-	"(*sync.Map).LoadOrStore":    "vpmSyncMapLoadOrStore",
-	"(*sync.Map).Delete":         "vpmSyncMapDelete",
-	"(*sync.Map).LoadAndDelete":  "vpmSyncMapLoadAndDelete",
-	"(*sync.Map).Range":          "vpmSyncMapRange",
-	"(*sync.Pool).Get":           "vpmPoolGet",
-	"(*sync.Pool).Put":           "vpmPoolPut",
+	"encoding/binary.Read":      "vpmBinaryRead",
+	"encoding/binary.Write":     "vpmBinaryWrite",
+	"fmt.Sprintf":               "vpmSprintf",
+	"fmt.Errorf":                "vpmErrorf",
+	"fmt.Fprintf":               "vpmFprintf",
+	"fmt.Fprint":                "vpmFprint",
+	"fmt.Sprint":                "vpmSprint",
+	"context.WithValue":         "vpmWithValue",
+	"errors.Is":                 "vpmErrorsIs",
+	"net/http.Error":            "vpmHttpError",
+	"net/http.Redirect":         "vpmRedirect",
+	"(net/http.Header).Get":     "vpmHeaderGet",
+	"(net/http.Header).Add":     "vpmHeaderAdd",
+	"(net/http.Header).Set":     "vpmHeaderSet",
+	"(net/http.Header).Del":     "vpmHeaderDel",
+	"(net/http.Header).Values":  "vpmHeaderValues",
+	"context.WithTimeout":       "vpmWithTimeout",
+	"context.WithCancel":        "vpmWithCancel",
+	"(*sync.Map).Load":          "vpmSyncMapLoad",
+	"(*sync.Map).Store":         "vpmSyncMapStore",
+	"(*sync.Map).LoadOrStore":   "vpmSyncMapLoadOrStore",
+	"(*sync.Map).Delete":        "vpmSyncMapDelete",
+	"(*sync.Map).LoadAndDelete": "vpmSyncMapLoadAndDelete",
+	"(*sync.Map).Range":         "vpmSyncMapRange",
+	"(*sync.Pool).Get":          "vpmPoolGet",
+	"(*sync.Pool).Put":          "vpmPoolPut",
 }
 
 // interpFuncs: individual functions of otherwise non-interpreted packages that are plain Go.
 var interpFuncs = map[string]bool{
-	"(*net/http.Request).Context":         true,
-	"(*net/http.Request).WithContext":     true,
-	"(net/http.HandlerFunc).ServeHTTP":    true,
+	"(*net/http.Request).Context":      true,
+	"(*net/http.Request).WithContext":  true,
+	"(net/http.HandlerFunc).ServeHTTP": true,
+	// pure helpers of gorilla/websocket (no connection state)
+	"github.com/gorilla/websocket.FormatCloseMessage":     true,
+	"github.com/gorilla/websocket.IsCloseError":           true,
+	"github.com/gorilla/websocket.IsUnexpectedCloseError": true,
+	"(*github.com/gorilla/websocket.CloseError).Error":    true,
 }
 
 func (e *Engine) freshVar(prefix string, w uint8) *smt.Term {
